@@ -25,6 +25,7 @@ def array_layout(ctx: Ctx, rule: str) -> None:
     want = {0: "segment.start", 1: "segment.end", 2: "segment.duration"}
     for qn, arr_kind in (("AbstractDissimilarity._build_arrays_continuum", 2), ("AbstractDissimilarity._build_arrays_alignment", 3)):
         f = ctx.fn(qn, rule)
+        _builder_rebuilds(ctx, rule, f, qn)
         got: Dict[int, ast.AST] = {}
         venv = view_env(f.node)
         for n in walk_no_nested(f.node):
@@ -66,6 +67,89 @@ def array_layout(ctx: Ctx, rule: str) -> None:
                           bad_detail=f"with a category table (self.categories is not None) the label index is taken in `{sp['table']}`, not in self.categories: the precomputed "
                                      f"tables and d() are indexed by the dissimilarity's own categories, so a continuum using a subset of them is looked up at shifted cells",
                           key="index-space", construct="index space")
+
+
+def _builder_rebuilds(ctx: Ctx, rule: str, f, qn: str) -> None:
+    """The array form is rebuilt from the units at every call: no `return` hands back a value that was read from (an attribute of) one of
+    the builder's arguments instead of being built here, and the builder records nothing on the objects it is given.  A memo kept on the
+    alignment / continuum is keyed by something; the units behind `n_tuple` setters, list stores and `add` / `remove` change without
+    changing such a key, and then the disorder recomputed from the units is the disorder of older units (seeded/C03-r18-*)."""
+    params = set(f.params)
+    binds: Dict[str, List[ast.AST]] = {}
+    for n in walk_no_nested(f.node):
+        if isinstance(n, ast.Assign):
+            for t in n.targets:
+                if isinstance(t, ast.Name):
+                    binds.setdefault(t.id, []).append(n.value)
+        elif isinstance(n, (ast.AnnAssign, ast.NamedExpr)) and isinstance(n.target, ast.Name) and n.value is not None:
+            binds.setdefault(n.target.id, []).append(n.value)
+
+    def held(e: ast.AST, seen: Set[str], depth: int = 0) -> Optional[ast.AST]:
+        """the read of a value kept on an argument that `e` may denote (through locals, subscripts, conditionals); a call builds a new value"""
+        if depth > 8:
+            return None
+        if isinstance(e, ast.Name):
+            if e.id in seen:
+                return None
+            seen = seen | {e.id}
+            for v in binds.get(e.id, []):
+                r = held(v, seen, depth + 1)
+                if r is not None:
+                    return r
+            return None
+        if isinstance(e, (ast.Subscript, ast.Starred)):
+            return held(e.value, seen, depth + 1)
+        if isinstance(e, ast.IfExp):
+            return held(e.body, seen, depth + 1) or held(e.orelse, seen, depth + 1)
+        if isinstance(e, ast.BoolOp):
+            for v in e.values:
+                r = held(v, seen, depth + 1)
+                if r is not None:
+                    return r
+            return None
+        if isinstance(e, ast.Attribute):
+            root = e
+            while isinstance(root, (ast.Attribute, ast.Subscript)):
+                root = root.value
+            return e if isinstance(root, ast.Name) and root.id in params else None
+        if isinstance(e, ast.Call) and norm(e.func) == "getattr" and e.args:
+            root = e.args[0]
+            while isinstance(root, (ast.Attribute, ast.Subscript)):
+                root = root.value
+            return e if isinstance(root, ast.Name) and root.id in params else None
+        if isinstance(e, ast.Call) and isinstance(e.func, ast.Attribute) and e.func.attr in ("get", "setdefault", "pop", "__getitem__", "__getattribute__"):
+            # a lookup in a container that hangs off an argument (self.__dict__.setdefault(...), alignment._memo.get(key), vars(x).get(...))
+            root = e.func.value
+            while isinstance(root, (ast.Attribute, ast.Subscript)) or (isinstance(root, ast.Call) and norm(root.func) == "vars" and root.args):
+                root = root.args[0] if isinstance(root, ast.Call) else root.value
+            return e if isinstance(root, ast.Name) and root.id in params else None
+        return None
+
+    nret = 0
+    for n in walk_no_nested(f.node):
+        if isinstance(n, ast.Return) and n.value is not None:
+            nret += 1
+            src = held(n.value, set())
+            ctx.check(src is None, rule, f, n, f"{qn}: every return hands back an array built in this call",
+                      bad_detail=f"{qn} returns a value read from `{norm(src) if src is not None else ''}`, i.e. kept on one of its arguments from an earlier call, "
+                                 f"instead of the array built from the units now: after the units change (n_tuple setter, list store, add / remove) the "
+                                 f"recomputed disorder is that of the old units",
+                      construct="rebuilt at every call", key="builder-rebuilds")
+        stored = None
+        if isinstance(n, (ast.Assign, ast.AugAssign, ast.AnnAssign)):
+            for t in (n.targets if isinstance(n, ast.Assign) else [n.target]):
+                if isinstance(t, ast.Attribute):
+                    root = t.value
+                    while isinstance(root, (ast.Attribute, ast.Subscript)):
+                        root = root.value
+                    if isinstance(root, ast.Name) and root.id in params:
+                        stored = t
+        elif isinstance(n, ast.Call) and norm(n.func) in ("setattr", "object.__setattr__") and n.args and isinstance(n.args[0], ast.Name) and n.args[0].id in params:
+            stored = n
+        if stored is not None:
+            ctx.check(False, rule, f, n, "", bad_detail=f"{qn} records `{norm(stored)}` on an object it was given: the array form is a function of the units, "
+                      f"nothing may be kept from one call to the next on the alignment / continuum / dissimilarity", construct="records nothing", key="builder-records")
+    ctx.require(nret >= 1, rule, f"{qn}: no return statement found")
 
 
 def _index_space(f, space: ast.AST):
